@@ -1528,6 +1528,18 @@ extern "C" int clock_gettime(clockid_t id, struct timespec* ts) {
   ts->tv_nsec = g.clock_ns % 1000000000ULL;
   return 0;
 }
+// rand(): fixed LCG under the scheduler (ParallelSTL::sort picks pivots with
+// rand(); libc's version takes a lock and its state survives nothing anyway)
+extern "C" int rand(void) {
+  if (!g.on) {
+    static unsigned long s = 12345;
+    s = s * 6364136223846793005UL + 1442695040888963407UL;
+    return (int)((s >> 33) & 0x7fffffff);
+  }
+  g.rand_state = g.rand_state * 1103515245u + 12345u;
+  return (int)((g.rand_state >> 1) & 0x3fffffff);
+}
+
 extern "C" int gettimeofday(struct timeval* tv, void*) {
   if (!g.on) {
     struct timespec ts;
